@@ -242,6 +242,16 @@ def s_nested_groups(ctx, vh, rng):
                 break
 
 
+def flag_consistent(ctx, res, rep):
+    """Diagnostics::has_error() is what src/main.rs consults to fail the command and write nothing: it has to say 'error' exactly when an error diagnostic is in the list"""
+    errs = [d for d in res.get("diags", []) if d["kind"] == "error"]
+    if "has_error" in res and bool(res["has_error"]) != bool(errs):
+        ctx.violation("Diagnostics::has_error() = %s although the list holds %d error diagnostic(s) (%s): the command decides by it whether to exit non-zero and write nothing"
+                      % (res["has_error"], len(errs), errs[0]["msg"] if errs else ""), dict(rep, impl_output=res["diags"], theorem_or_correspondence="errors write nothing / S (has_error)"))
+        return False
+    return True
+
+
 def run(ctx):
     ctx.proof_leg(TARGETS, PINS, k_targets=U.K_TARGETS)
     vh = ctx.need_harness()
@@ -265,6 +275,8 @@ def run(ctx):
         rep = {"qml": docs[i]}
         if not isinstance(res, dict) or res.get("ui") is None:
             ctx.violation("no outputs for a generated document: %s" % str(res)[:200], dict(rep, impl_output=res))
+            continue
+        if not flag_consistent(ctx, res, rep):
             continue
         obs, loose = U.observe(r, res)
         if loose:
@@ -309,6 +321,8 @@ def run(ctx):
         if not isinstance(res, dict) or "diags" not in res:
             ctx.violation("no result for a faulted document: %s" % str(res)[:200], dict(rep, impl_output=res))
             continue
+        if not flag_consistent(ctx, res, rep):
+            continue
         obs, loose = U.observe(r, res) if res.get("ui") else ([], [])
         hit = [d for d in res["diags"] if d["kind"] == "error" and any(f["range"][0] <= d["start"] and d["end"] <= f["range"][1]
                                                                         for o in U.walk(r) for f in o["faults"] if f["key"] == fkinds[i][1])]
@@ -321,7 +335,12 @@ def run(ctx):
     work = os.path.join(C.BUILD, "c04-cli")
     shutil.rmtree(work, ignore_errors=True)
     os.makedirs(work)
-    sample = [(fdocs[i], True) for i in range(min(len(fdocs), 40 if ctx.tier == "thorough" else 12))]
+    # one faulted document per kind of fault first (every path by which an error reaches the list has to fail the command), then the first ones
+    firsts = {}
+    for i, (_, kind) in enumerate(fkinds):
+        firsts.setdefault(kind, i)
+    order = sorted(firsts.values()) + [i for i in range(len(fdocs)) if i not in firsts.values()]
+    sample = [(fdocs[i], True) for i in order[:max(len(firsts), 40 if ctx.tier == "thorough" else 14)]]
     sample += [(docs[i], bool(impl[i]["diags"])) for i in range(min(len(docs), 40 if ctx.tier == "thorough" else 12)) if isinstance(impl[i], dict)]
     ncli = 0
     for k, (src, has_err) in enumerate(sample):
